@@ -358,7 +358,7 @@ fn c03(quick: bool) -> Vec<Harness> {
         // With a kernel thread the queue is drained at any moment, also between a failed submission and the registration of the waiter.
         for (sq, prefill) in [(1u32, 1usize), (2, 2)] {
             let mut h = c03_threads(C03Cfg { sq, prefill, kind: Kind::ReadVec, repoll_fresh: false, tasks: 1, max_polls: 4, sqpoll: true, poll_none: false }, pb);
-            h.free_bound = if quick { 2 } else { 0 };
+            h.free_bound = if quick { if prefill == 2 { 1 } else { 2 } } else { 0 };
             v.push(th_harness("C03", h));
         }
     }
@@ -388,7 +388,7 @@ fn c03(quick: bool) -> Vec<Harness> {
         cfg.costs.drop_op = 1;
         cfg.costs.fresh_waker = 1;
         cfg.report = vec!["C03"];
-        v.push(ops_harness(&format!("sq{sq}"), "C03", cfg.clone(), bounds(if sq == 4 { d(8, 11) } else { d(9, 11) }, d(3, 4), 4)));
+        v.push(ops_harness(&format!("sq{sq}"), "C03", cfg.clone(), bounds(if sq >= 2 { d(8, 11) } else { d(9, 11) }, d(3, 4), 4)));
         if sq <= 2 {
             // The caller polls without a timeout.
             cfg.blocking_enter = true;
